@@ -959,6 +959,23 @@ func (f *ndFunc) run() {
 						}
 					}
 				}
+				// two inputs of an element-wise operation are in the same domain
+				if record {
+					var ins [][]ndMember
+					var exprs []ast.Expr
+					for _, i := range pa {
+						if sum.wParams[i] {
+							continue
+						}
+						if sp, ok := f.path(call.Args[i], 0); ok {
+							ins = append(ins, lookup(s, sp))
+							exprs = append(exprs, call.Args[i])
+						}
+					}
+					if len(ins) == 2 {
+						f.mixCheck(s, call, name, exprs, ins)
+					}
+				}
 				for _, i := range pa {
 					if !sum.wParams[i] {
 						continue
@@ -992,6 +1009,19 @@ func (f *ndFunc) run() {
 				dp, ok2 := f.path(call.Args[pa[1]], 0)
 				if ok1 && ok2 {
 					set(s, dp, stamp(s, lookup(s, sp)))
+					return
+				}
+			}
+		}
+		// small-norm samplers produce (and add) coefficient-domain values
+		if fn != nil && recvExpr != nil && (name == "Read" || name == "ReadAndAdd") && len(call.Args) == 1 && ndCoeffSampler(f.info, recvExpr) {
+			if tv, ok := f.info.Types[call.Args[0]]; ok && isPolyLike(tv.Type) {
+				if dp, ok := f.path(call.Args[0], 0); ok {
+					if name == "ReadAndAdd" {
+						report(s, call, "ReadAndAdd", call.Args[0], dp, 'C', record)
+						return
+					}
+					set(s, dp, []ndMember{{kind: 'C', facts: factsString(s.facts)}})
 					return
 				}
 			}
@@ -1631,4 +1661,103 @@ func (f *ndFunc) metaValue(r ast.Expr, look func(string) []ndMember) []ndMember 
 		}
 	}
 	return []ndMember{{kind: 'T'}}
+}
+
+// ndCoeffSampler: the receiver of Read/ReadAndAdd is a sampler of small-norm (Gaussian, ternary) polynomials, whose
+// output is by construction in the coefficient domain: concrete type, or for the ring.Sampler interface the name of
+// the field it is stored in (noise/xe/xs/gaussian/ternary).
+func ndCoeffSampler(info *types.Info, recv ast.Expr) bool {
+	e := unparen(recv)
+	for {
+		call, ok := e.(*ast.CallExpr)
+		if !ok {
+			break
+		}
+		se, ok := unparen(call.Fun).(*ast.SelectorExpr)
+		if !ok || (se.Sel.Name != "AtLevel" && se.Sel.Name != "WithPRNG") {
+			return false
+		}
+		e = unparen(se.X)
+	}
+	tv, ok := info.Types[e]
+	if !ok {
+		return false
+	}
+	n := namedOf(tv.Type)
+	if n == nil {
+		return false
+	}
+	switch n.Obj().Name() {
+	case "GaussianSampler", "TernarySampler":
+		return true
+	case "Sampler":
+		last := ""
+		switch x := e.(type) {
+		case *ast.SelectorExpr:
+			last = x.Sel.Name
+		case *ast.Ident:
+			last = x.Name
+		}
+		l := strings.ToLower(last)
+		for _, h := range []string{"noise", "xe", "xs", "gaussian", "ternary", "smudg"} {
+			if strings.Contains(l, h) {
+				return true
+			}
+		}
+	}
+	return false
+}
+
+func (f *ndFunc) mixCheck(s *ndState, call *ast.CallExpr, name string, exprs []ast.Expr, ins [][]ndMember) {
+	decided, bad := false, false
+	var where string
+	for _, a := range ins[0] {
+		if !ndFeasible(a, s.facts) {
+			continue
+		}
+		for _, b := range ins[1] {
+			if !ndFeasible(b, s.facts) || !ndCompatible(a, b) {
+				continue
+			}
+			both := map[string]bool{}
+			for k, v := range s.facts {
+				both[k] = v
+			}
+			for _, m := range []ndMember{a, b} {
+				if m.facts != "" {
+					for _, kv := range strings.Split(m.facts, ";") {
+						both[kv[:len(kv)-2]] = kv[len(kv)-1] == '1'
+					}
+				}
+			}
+			ra, rb := ndResolve(a, both), ndResolve(b, both)
+			if ra == 0 || rb == 0 {
+				continue
+			}
+			decided = true
+			if ra != rb {
+				bad = true
+				where = factsString(both)
+			}
+		}
+	}
+	if !decided {
+		return
+	}
+	key := fmt.Sprintf("NTTDOM:%s#%s(%s,%s)", f.fkey, name, exprString(exprs[0]), exprString(exprs[1]))
+	if bad {
+		if !f.seen[key+"!"] {
+			f.seen[key+"!"] = true
+			if where == "" {
+				where = "no condition"
+			}
+			f.out = append(f.out, withProps(violOb("NTTDOM", key, f.c.Rel(call.Pos()),
+				fmt.Sprintf("%s: %s combines %s and %s, one in the NTT domain and the other in the coefficient domain (on the path where %s)", f.fkey, name, exprString(exprs[0]), exprString(exprs[1]), where)), bufProps(f.fkey)...))
+		}
+		return
+	}
+	if !f.seen[key] && !f.seen[key+"!"] {
+		f.seen[key] = true
+		f.out = append(f.out, withProps(okOb("NTTDOM", key, f.c.Rel(call.Pos()), "both inputs of the element-wise operation are in the same domain on every decided path", true), bufProps(f.fkey)...))
+	}
 }
